@@ -51,7 +51,7 @@ CHECKS = {
         engine='svm+model', technique='differential runtime monitoring (M-DIFF vs reference interpreter that raises the same faults) on a boundary grid; M-END terminal-state monitor',
         text='Exploration with an exhaustively enumerated grid: every faulting operator x element type x storage class x access form with ~19 index values, '
              '60 dividend/divisor pairs and 18 VLA lengths at word sizes 2,3,4 produced exactly prefix + [flag kind, flag error] (or no fault) as the '
-             'model predicts; plus random hostile programs and time-travel programs (nonlocal_preempt).',
+             'model predicts; literal indices, divisors and lengths; return expressions calling defeat functions; returns inside taken preempt blocks; narrowing casts as indices; plus random hostile programs and time-travel programs (nonlocal_preempt).',
         note=ISA + '; ' + MODEL, ref='6 (C05)'),
     'C08': dict(
         engine='svm', technique='runtime invariant monitor M-BAL ((fp,ap) per activation at loop heads/exits, call returns, stop-handler restore), M-SAN use-after-release, peak-ap twin comparison',
@@ -71,7 +71,7 @@ CHECKS = {
     'C07': dict(
         engine='svm+model', technique='runtime observation of accept/reject + code generation on rule x position enumerations vs an independent implementation of the documented typing rules; overload tags observed on the SVM',
         text='Exploration with exhaustively enumerated rule tables: 60 providers x 12 target types x 8 positions, operator/cast/??/index operand typing, 125 single-rule '
-             'ill-typing mutations, random overload sets whose selected overload is observed in the output of the compiled program.',
+             'ill-typing mutations, random overload sets whose selected overload is observed in the output of the compiled program. 43 return-path shapes; 3808 provider/position pairs under no-op spellings must get the same verdict.',
         note=ISA + '; expected typing = my implementation of README "Types"', ref='6 (C07)'),
     'C11': dict(
         engine='model', technique='runtime comparison of the real parser\'s tree with an independent precedence-climbing parser and a minimal-parentheses printer (round trip)',
@@ -81,32 +81,32 @@ CHECKS = {
     'C12': dict(
         engine='model', technique='runtime comparison of hidc.lexer.lex output (kinds, values, spans) with generator-built token sequences under layout fuzz and with a hand-written reference tokenizer; end-to-end re-layout of programs',
         text='Exhaustive literal sets (ints of <=3 digits in 4 bases, all 256 \\xHH in strings and chars, every escape, \\u over all planes) + random token sequences '
-             'with arbitrary layout, adjacency soups, and 5 re-layouts of generated programs whose instruction stream must not change.',
+             'with arbitrary layout, adjacency soups, and 5 re-layouts of generated programs whose instruction stream must not change. The same token sequences through SourceCode.from_file with 9 file endings.',
         note='reference tokenizer built from the property statement and README literal forms; ASCII identifiers/whitespace only', ref='6 (C12)'),
     'C09': dict(
         engine='svm', technique='runtime monitoring of printed operator results on the SVM against a 40-line table of operator semantics, operands supplied at run time (nothing folded)',
         text='Exhaustive over the stated grid: every binary operator x every ordered pair of grid values x 4 operand type combinations, bool equality, 19 unary/cast forms, '
-             'in value / branch / !truth_is_defeat (try/stop and try/undo) / not / and-or / while positions at word sizes 2,3,4 (quick: 14-value grid, thorough: 32 values).',
+             'in value / branch / !truth_is_defeat (try/stop and try/undo) / not / and-or / while positions at word sizes 2,3,4 (quick: 14-value grid, thorough: 32 values). Operands also held in globals, array elements and compile-time constants; literals on either side of every operator; truthiness of arrays (static and run-time length) and of strings of 0..1024 bytes; fault-free grids again under --unchecked.',
         note=ISA + '; the semantics table (wrap, signed compare, zero-extension, truncation, truthiness, strict 0/1, floor division)', ref='6 (C09)'),
     'C10': dict(
         engine='svm', technique='runtime monitor M-EXC on exceptions escaping the public API and the command-line tool under hostile inputs; M-ASM on every successful compile; CLI exit/output-file contract',
         text='Exploration: thousands of random texts, token soups, mutations and every-prefix truncations of valid programs, ill-typed mutants, deep nesting <= 40, raw bytes '
-             'through the CLI, and the full option matrix; every outcome was assembly that assembles or a CompilerError whose position lies in the source and renders.',
+             'through the CLI, and the full option matrix; every outcome was assembly that assembles or a CompilerError whose position lies in the source and renders. Plus the template and idiom corpora of all other checks, unusual-but-legal programs, and 15 byte sequences x 10 places in source files (API and CLI).',
         note='the SVM assembler as acceptance test for emitted text; nesting bound 40', ref='6 (C10)'),
     'C13': dict(
         engine='svm', technique='runtime contract M-ESC on the real _escape_bytes (decode(result) == data) + bytes printed/indexed/measured on the SVM vs denoted bytes; M-ASM',
         text='Exhaustive for the 256 single bytes (12 usages each), the 1600 ordered pairs of a 40-value hostile set, all 256 char literals, constant arrays of every length 0..40 x 4 '
-             'element types x 4 storage kinds; plus random strings of length 0..64 with random escape spellings; word sizes 2,3,4.',
+             'element types x 4 storage kinds; plus random strings of length 0..64 with random escape spellings; word sizes 2,3,4. Also tables whose rows coincide across element types, every character written raw in a source file (from_file path), and literals re-evaluated after the array they initialised was written.',
         note=ISA, ref='6 (C13)'),
     'C14': dict(
         engine='svm+model', technique='metamorphic runtime monitoring: SVM output of the constant form vs its run-time twin (literals routed through a mutable global); reference interpreter as tie-breaker; known-finding classifier by mechanism',
         text='Exploration: ~1700 (quick) random constant programs per run, each compared with its unfoldable twin at word sizes 2,3,4; rejections are legitimate only with a '
-             'constant zero divisor. The recorded finding fold-nowrap (folding on unbounded integers) is reported as KNOWN-FINDING, any other disagreement is a violation.',
+             'constant zero divisor. An enumerated `forms` shard covers constant indices, computed operands next to array[constant], constant array lengths and whole-program twins of the idiom grids. The recorded finding fold-nowrap (folding on unbounded integers) is reported as KNOWN-FINDING, any other disagreement is a violation.',
         note=ISA + '; classifier: exact constant value of a sub-expression leaves the signed word range and the twin agrees with RefInt', ref='6 (C14), 10'),
     'C17': dict(
         engine='svm', technique='runtime monitoring of bytes printed by the write family on the SVM vs canonical text computed by the harness; M-SAN inside the routines; caller state re-printed; tight-stack sweep',
         text='Exhaustive for all 65536 16-bit integers, all 256 bytes, both bools, byte arrays/strings of every length 0..64 in 6 storage forms; boundary (+-40 around every power of '
-             'ten and two) and random values at 24/32/64 bits; caller scalars/arrays around the call at generous and exactly-sufficient stacks.',
+             'ten and two) and random values at 24/32/64 bits; caller scalars/arrays around the call at generous and exactly-sufficient stacks. Compile-time constant arguments (also beyond the word); the routines called from inside try bodies that are undone, committed and stopped.',
         note=ISA, ref='6 (C17)'),
 }
 
